@@ -1001,9 +1001,13 @@ def c08_refresh_gen(rng, tier):
     for c in range(budget(tier, 20, 240)):
         mem, red, place = REFRESH_CFGS[c % 4]
         rc = 1 + (c // 4 * 4 + c % 4 * 5 + c // 16) % 15 if c >= 4 else [2, 3, 5, 2][c]
-        out.append("rf%d mem=%s redis=%s place=%s rcode=%d ettl=%s age=%d remain=1900 qs=100_%d_%d" % (
-            c, mem, red, place, rc, rng.choice(["x", "x", "7", "0_300"]), rng.choice([7000, 7400, 9000]),
-            rng.choice([300, 350, 400]), rng.choice([600, 650, 700])))
+        # entry only in redis + a memory backend: the first hit promotes it with the instants cut to whole seconds, so up
+        # to 1 s of its lifetime is lost in the memory tier: leave 2.9 s, so that the promoted copy surely outlives the case
+        # (otherwise its early expiry + cleanup would open the cross-tier gap of observation 6, which is not this class)
+        remain = 2900 if (place == "r" and mem == "1") else 1900
+        out.append("rf%d mem=%s redis=%s place=%s rcode=%d ettl=%s age=%d remain=%d qs=100_%d_%d" % (
+            c, mem, red, place, rc, rng.choice(["x", "x", "7", "0_300"]), rng.choice([3 * remain + 1300, 3 * remain + 1700, 9000]),
+            remain, rng.choice([300, 350, 400]), rng.choice([600, 650, 700])))
     return out
 
 
